@@ -119,6 +119,162 @@ pub fn c01(rng: &mut Rng, thorough: bool) -> Scenario {
     Scenario { ops, label: format!("c01 commits={} cc={}", commits, cfg.cc) }
 }
 
+/// branch nodes with a long shared separator prefix followed by separators that do not share it
+/// (prefix compression stops inside the node: an "uncompressed tail"), then sparse updates that
+/// leave kept separators after updated ones inside such tails
+pub fn c01_prefix_tail(rng: &mut Rng, thorough: bool) -> Scenario {
+    let mut ops = Vec::new();
+    let mut ids = Ids::new();
+    let mut live = Live::default();
+    let mut cfg = gen_cfg(rng);
+    cfg.rollback = false;
+    cfg.ht = 64000;
+    ops.push(Op::Open(cfg.clone()));
+    let plen = rng.range(12, 26) as usize; // bytes shared by the cluster
+    let base = rng.key();
+    let n1 = rng.range(300, if thorough { 900 } else { 650 }) as usize;
+    let n2 = rng.range(300, if thorough { 1200 } else { 950 }) as usize;
+    let vlen = |rng: &mut Rng| rng.range(600, 1300) as usize;
+    let mut clustered: Vec<Key> = Vec::new();
+    for i in 0..n1 {
+        let mut k = rng.key();
+        k[..plen].copy_from_slice(&base[..plen]);
+        k[plen] = (i >> 8) as u8;
+        k[plen + 1] = (i & 0xff) as u8;
+        clustered.push(k);
+    }
+    // the other keys lie above or below the cluster, whichever side has room
+    let above = base[0] < 0x80;
+    let mut scattered: Vec<Key> = Vec::new();
+    for j in 0..n2 {
+        let mut k = rng.key();
+        k[0] = if above { 0x80 | (j >> 8) as u8 } else { (j >> 8) as u8 & 0x3f };
+        k[1] = (j & 0xff) as u8;
+        if !above && k[..plen] >= base[..plen] {
+            continue;
+        }
+        scattered.push(k);
+    }
+    let mut b: Vec<(Key, Acc)> = clustered.iter().chain(scattered.iter()).map(|k| (*k, Acc::Write(Some((vlen(rng), rng.next() % 1_000_000))))).collect();
+    b.sort_by(|a, b| a.0.cmp(&b.0));
+    b.dedup_by(|a, b| a.0 == b.0);
+    live.apply(&b);
+    ops.extend(commit_ops(ids.s(), ids.c(), b, false));
+    ops.push(Op::CheckAll { proofs: 2 });
+    let rounds = rng.range(3, if thorough { 12 } else { 6 });
+    for _ in 0..rounds {
+        // sparse: one to a dozen keys, mostly from one of the two families
+        let fam = if rng.chance(2, 3) { &scattered } else { &clustered };
+        let cnt = *rng.pick(&[1usize, 1, 2, 3, 5, 12]);
+        let mut b: Vec<(Key, Acc)> = Vec::new();
+        for _ in 0..cnt {
+            let k = fam[rng.below(fam.len() as u64) as usize];
+            let acc = match rng.below(4) {
+                0 => Acc::Write(None),
+                1 => Acc::ReadWrite(Some((vlen(rng), rng.next() % 1_000_000))),
+                _ => Acc::Write(Some((vlen(rng), rng.next() % 1_000_000))),
+            };
+            b.push((k, acc));
+        }
+        // and sometimes a new key next to an old one
+        if rng.chance(1, 3) {
+            let mut k = fam[rng.below(fam.len() as u64) as usize];
+            k[31] ^= 1;
+            b.push((k, Acc::Write(Some((vlen(rng), 7)))));
+        }
+        b.sort_by(|a, b| a.0.cmp(&b.0));
+        b.dedup_by(|a, b| a.0 == b.0);
+        live.apply(&b);
+        ops.extend(commit_ops(ids.s(), ids.c(), b, false));
+        ops.push(Op::CheckAll { proofs: 2 });
+    }
+    Scenario { ops, label: format!("c01tail plen={} n1={} n2={} cc={}", plen, n1, n2, cfg.cc) }
+}
+
+/// several clusters of counter keys with different shared prefix lengths (branch nodes with and
+/// without prefix compression, long and short separators), then contiguous range deletions, sparse
+/// overwrites and whole new clusters: branch splits, merges and separator changes
+pub fn c01_clusters(rng: &mut Rng, thorough: bool) -> Scenario {
+    let mut ops = Vec::new();
+    let mut ids = Ids::new();
+    let mut live = Live::default();
+    let mut cfg = gen_cfg(rng);
+    cfg.rollback = false;
+    cfg.ht = 64000;
+    ops.push(Op::Open(cfg.clone()));
+    let small_vals = rng.chance(1, 3);
+    let vlen = |rng: &mut Rng| if small_vals { rng.range(0, 60) as usize } else { rng.range(150, 1330) as usize };
+    let mk_cluster = |rng: &mut Rng| -> Vec<Key> {
+        let plen = rng.range(1, 29) as usize;
+        let base = rng.key();
+        let n = rng.range(60, if thorough { 700 } else { 350 }) as usize;
+        let step = *rng.pick(&[1usize, 1, 3, 257]);
+        (0..n)
+            .map(|i| {
+                let mut k = if rng.chance(1, 2) { [0u8; 32] } else { rng.key() };
+                k[..plen].copy_from_slice(&base[..plen]);
+                let c = i * step;
+                k[plen] = (c >> 16) as u8;
+                k[plen + 1] = (c >> 8) as u8;
+                k[plen + 2] = c as u8;
+                k
+            })
+            .collect()
+    };
+    let mut clusters: Vec<Vec<Key>> = (0..rng.range(2, 5)).map(|_| mk_cluster(rng)).collect();
+    let mut b: Vec<(Key, Acc)> = clusters.iter().flatten().map(|k| (*k, Acc::Write(Some((vlen(rng), rng.next() % 1_000_000))))).collect();
+    b.sort_by(|a, b| a.0.cmp(&b.0));
+    b.dedup_by(|a, b| a.0 == b.0);
+    live.apply(&b);
+    ops.extend(commit_ops(ids.s(), ids.c(), b, false));
+    ops.push(Op::CheckAll { proofs: 2 });
+    let rounds = rng.range(3, if thorough { 10 } else { 6 });
+    for _ in 0..rounds {
+        let mut b: Vec<(Key, Acc)> = Vec::new();
+        match rng.below(4) {
+            0 => {
+                // delete a contiguous range of one cluster
+                let c = &clusters[rng.below(clusters.len() as u64) as usize];
+                let mut sorted = c.clone();
+                sorted.sort();
+                let a = rng.below(sorted.len() as u64) as usize;
+                let z = (a + rng.range(1, sorted.len() as u64) as usize).min(sorted.len());
+                b.extend(sorted[a..z].iter().map(|k| (*k, Acc::Write(None))));
+            }
+            1 => {
+                // sparse overwrites everywhere
+                for c in &clusters {
+                    for k in c.iter() {
+                        if rng.chance(1, 40) {
+                            b.push((*k, Acc::Write(Some((vlen(rng), rng.next() % 1_000_000)))));
+                        }
+                    }
+                }
+            }
+            2 => {
+                // a new cluster
+                let c = mk_cluster(rng);
+                b.extend(c.iter().map(|k| (*k, Acc::Write(Some((vlen(rng), rng.next() % 1_000_000))))));
+                clusters.push(c);
+            }
+            _ => {
+                // re-insert a deleted range / rewrite a whole cluster with values of the other size class
+                let c = &clusters[rng.below(clusters.len() as u64) as usize];
+                b.extend(c.iter().map(|k| (*k, Acc::Write(Some((if small_vals { rng.range(900, 1330) } else { rng.range(0, 40) } as usize, rng.next() % 1_000_000))))));
+            }
+        }
+        if b.is_empty() {
+            continue;
+        }
+        b.sort_by(|a, b| a.0.cmp(&b.0));
+        b.dedup_by(|a, b| a.0 == b.0);
+        live.apply(&b);
+        ops.extend(commit_ops(ids.s(), ids.c(), b, false));
+        ops.push(Op::CheckAll { proofs: 2 });
+    }
+    Scenario { ops, label: format!("c01clusters n={} cc={}", clusters.len(), cfg.cc) }
+}
+
 pub fn c02(rng: &mut Rng, thorough: bool) -> Scenario {
     let mut ops = Vec::new();
     let mut ids = Ids::new();
@@ -862,7 +1018,11 @@ pub fn c13_cfgs(rng: &mut Rng, n: usize) -> Vec<Cfg> {
 
 pub fn generate(prop: &str, rng: &mut Rng, thorough: bool) -> Vec<Scenario> {
     match prop {
-        "C01" => vec![c01(rng, thorough)],
+        "C01" => vec![match rng.below(8) {
+            0 => c01_prefix_tail(rng, thorough),
+            1 => c01_clusters(rng, thorough),
+            _ => c01(rng, thorough),
+        }],
         "C02" => vec![c02(rng, thorough)],
         "C05" => vec![c05(rng, thorough)],
         "C06" => vec![c06(rng, thorough)],
